@@ -6,7 +6,7 @@ of Props/Cxx.v fails the audit.  Prints the theorem names for tools/props.py."""
 import re, sys, os
 ROOT = os.path.dirname(os.path.dirname(os.path.abspath(__file__)))
 pid = sys.argv[1]
-files = [pid] + sys.argv[2:]
+files = [f for f in [pid] + sys.argv[2:] if os.path.exists(os.path.join(ROOT, "coq", "Props", f + ".v"))]
 src = "\n".join(open(os.path.join(ROOT, "coq", "Props", f + ".v")).read() for f in files)
 # strip comments
 out, depth, i = [], 0, 0
